@@ -581,3 +581,49 @@ fn c18_open_refusal_has_no_effect() {
     }
     core::mem::forget(res);
 }
+
+// ---------------------------------------------------------------------------------------------
+// C17 / C01 (reopen): Regions::fill registers exactly the slots that decode; a garbage slot is
+// skipped without disturbing a valid one
+#[kani::proof]
+#[kani::unwind(6)]
+#[kani::stub(alloc::fmt::format, stubs::format_stub)]
+#[kani::stub(crate::Database::sync_bg_tasks, crate::verif_root::sync_bg_tasks_stub)]
+#[kani::stub(<[u8]>::to_vec, stubs::to_vec_stub)]
+fn c17_fill_skips_invalid_slot() {
+    let mut buf: Box<[u8; 8192]> = Box::new([0u8; 8192]);
+    // slot 0: arbitrary first 40 bytes (the decoder reads 32 + id_len <= 36 bytes when id_len <= 4 and
+    // only the 32-byte prefix when id_len > 1024; the fully symbolic slot is c17_meta_from_bytes_any_slot)
+    let head: [u8; 40] = kani::any();
+    let mut s0 = [0u8; 4096];
+    s0[..40].copy_from_slice(&head);
+    let id_len = u64::from_le_bytes([s0[24], s0[25], s0[26], s0[27], s0[28], s0[29], s0[30], s0[31]]);
+    kani::assume(id_len <= 4 || id_len > 1024);
+    buf[..40].copy_from_slice(&head);
+    // slot 1: a valid entry
+    buf[4096 + 0..4096 + 8].copy_from_slice(&(8 * 4096u64).to_le_bytes());
+    buf[4096 + 8..4096 + 16].copy_from_slice(&10u64.to_le_bytes());
+    buf[4096 + 16..4096 + 24].copy_from_slice(&4096u64.to_le_bytes());
+    buf[4096 + 24..4096 + 32].copy_from_slice(&1u64.to_le_bytes());
+    buf[4096 + 32] = b'b';
+    {
+        let f = &mut pfs::state().files[pfs::REGIONS];
+        f.buf = buf.as_mut_ptr();
+        f.cap = 8192;
+    }
+    let db = mk_db(64 * 4096, 2); // regions map: 2 slots over the buffer above
+    let r = regions_of(&db).fill(&db);
+    assert!(r.is_ok());
+    let rs = regions_of(&db);
+    // the valid slot is always there, under its name, with its decoded geometry
+    assert!(vg::slot_is_some(rs, 1) && vg::id_index(rs, "b") == Some(1));
+    let b = rs.get_from_index(1).unwrap();
+    assert!(vr::geom(b) == (8 * 4096, 10, 4096));
+    // the other slot is registered iff it decodes
+    let dec = RegionMetadata::from_bytes(&s0);
+    assert!(vg::slot_is_some(rs, 0) == dec.is_ok());
+    assert!(vg::n_slots(rs) == 2);
+    kani::cover!(dec.is_err() && id_len <= 4, "garbage slot skipped");
+    kani::cover!(dec.is_ok(), "second valid slot registered");
+    core::mem::forget((dec, r, db, buf));
+}
